@@ -304,6 +304,12 @@ func ruleDur2(c *Ctx, r *Reporter) {
 				good = true
 			}
 		}
+		// or the result of AtomicWriteFile is returned directly
+		for _, ret := range returnsOf(store) {
+			if retVal(ret, 0) == ssa.Value(aw) {
+				good = true
+			}
+		}
 		r.check(good, key+"write error returned", c.pos(aw.Pos()), "a failed write is reported to Commit", "a failed write is not reported: Commit would publish unpersisted data")
 	}
 	var rd *ssa.Call
